@@ -63,6 +63,7 @@ Released(wd) ==
 RealViews(e) ==
   {[w |-> e.cviews[i].w, row |-> e.cviews[i].row, col |-> e.cviews[i].col, tl |-> e.cviews[i].tl,
     tt |-> e.cviews[i].tt, cols |-> e.cviews[i].cols, rows |-> e.cviews[i].rows] : i \in DOMAIN e.cviews}
+NoZ(S) == {[x EXCEPT !.z = 0] : x \in S}
 Plain(views) ==
   {[w |-> v.w, row |-> v.row, col |-> v.col, tl |-> v.tl, tt |-> v.tt, cols |-> v.cols, rows |-> v.rows] : v \in views}
 ResetGen(views) == {[v EXCEPT !.gen = 0] : v \in views}
@@ -96,6 +97,7 @@ RedrawCore(e, free0, T1, P, implied, shown, fullT) ==
       cv1 == ResetGen(d.cviews)
       expexc == IF bad THEN "ValueError" ELSE ""
       judged == ~bad /\ ~taint
+      wrongz == {x \in shown \ disc.g : x.proto = "kitty" /\ x.wid \in DOMAIN wd /\ x.z # wd[x.wid].z}
       newg == (shown \ implied) \ disc.g
       newm == (implied \ shown) \ disc.m
       leafimg == TopLeaf(e.lay) /\ e.lay.k = "img"
@@ -108,16 +110,22 @@ RedrawCore(e, free0, T1, P, implied, shown, fullT) ==
             ELSE IF ~Bracketed(e.toks) \/ T1.sync # 0 THEN V("sync-bracket", "", Len(e.toks))
             ELSE IF ~DeletesFirst(e.toks, Gfx) THEN V("delete-after-content", "", 0)
             ELSE IF ~Supported(Id) /\ ~NoGraphics(e.toks) THEN V("graphics-unsupported", "", 0)
-            ELSE IF judged /\ e.full # <<>> /\ (fullT.err # "" \/ Shown(fullT, Gfx) # implied)
+            \* (the cross-check validates geometry and image lines; which z-index a widget draws on
+            \* is judged by the next clause)
+            ELSE IF judged /\ e.full # <<>> /\ (fullT.err # "" \/ NoZ(Shown(fullT, Gfx)) # NoZ(implied))
                    THEN V("oracle-mismatch", fullT.err, Cardinality(implied))
+            \* a widget's image lines are on the terminal under a z-index that is not the widget's own
+            \* (the screen deletes by the widget's z-index: such lines can never be removed)
+            ELSE IF judged /\ wrongz # {}
+                   THEN V("wrong-z-index", ToJson(wrongz), Cardinality(wrongz))
             ELSE IF judged /\ newg # {}
                    THEN [V("ghost", ToJson(newg), Cardinality(newg)) EXCEPT
                            !.alias = Aliased(gone), !.topimg = \A x \in newg : x.wid \in topw]
             ELSE IF judged /\ newm # {}
                    THEN [V("missing", ToJson(newm), Cardinality(newm)) EXCEPT !.alias = Aliased(gone)]
-            \* kitty stacks a line sent twice at the same cell and z-index (Konsole replaces it): the
-            \* same image line must not be present twice
-            ELSE IF judged /\ Id = "kitty" /\ Len(T1.pl) # Cardinality(shown)
+            \* kitty - and any other terminal but Konsole, which replaces it - stacks a line sent twice at
+            \* the same cell and z-index: the same image line must not be present twice
+            ELSE IF judged /\ Id # "konsole" /\ Len(T1.pl) # Cardinality(shown)
                    THEN V("duplicate", "", Len(T1.pl) - Cardinality(shown))
             ELSE OK
       \* mechanism level: compared only for composite canvases (the treatment of a bare leaf canvas
